@@ -12,7 +12,7 @@ import OFV.Proofs.C15
 import OFV.Proofs.C15Exp
 
 namespace OFV.C15
-open OFV.Model.C15 OFV.Model.C14
+open OFV.Model.C15 OFV.Model.C14 OFV.C14
 
 /-- The leaf times of one (recursive) Trotter step add up to the step time. -/
 theorem suzuki_times_sum (perm : List Nat → List Nat) (r : Nat → Rat) (order : Nat) (q : List Nat)
@@ -194,6 +194,30 @@ theorem lsn_sym_step_is_product_formula (n : Nat) (Tre Tim V : Nat → Nat → R
       apply List.sum_eq_zero; intro x hx; obtain ⟨e, _, rfl⟩ := List.mem_map.mp hx; simp [coeffOfKind]
     rw [z1 false, z2, zero_add, add_zero]
     apply congrArg; apply List.map_congr_left; intro i _; simp [coeffOfKind]
+/-- The symmetric linear-swap-network step is a PALINDROME: its third part (the network with
+`offset=True` on the reversed qubits, gates in the order rot11, Ryxxy, Rxxyy) is exactly the first part
+read backwards — the same generator with the same coefficient for the same pair of modes on the same two
+physical qubits (`bump`: the left mode `p` now sits one qubit further right, the pair of qubits is the
+same) — for every number of modes, even and odd.  With `lsn_sym_step_is_product_formula` this is
+"each term twice at half time, mirrored". -/
+theorem lsn_sym_step_mirrored (n : Nat) (Tre Tim V : Nat → Nat → Rat) :
+    let first := (swapNetwork n false).2.flatMap fun e =>
+      [((0 : Nat), e.1, e.2.1, e.2.2.1, Tre e.1 e.2.1 / 2), (1, e.1, e.2.1, e.2.2.1, Tim e.1 e.2.1 / 2),
+       (2, e.1, e.2.1, e.2.2.1, V e.1 e.2.1)]
+    lsnSymStep n Tre Tim V =
+      first ++ ((List.range n).map fun i => (3, i, i, n - 1 - i, Tre i i)) ++ (first.reverse.map bump) := by
+  intro first
+  unfold lsnSymStep
+  congr 1
+  rw [swapNetwork_mirror, List.flatMap_map]
+  show _ = (List.flatMap _ _).reverse.map bump
+  rw [List.reverse_flatMap, List.map_flatMap]
+  apply List.flatMap_congr
+  intro e he
+  have he' : e ∈ (swapNetwork n false).2 := List.mem_reverse.mp he
+  obtain ⟨h1, h2⟩ := swapNetwork_call_adjacent n false e he'
+  have hpos : n - 1 - (n - 2 - e.2.2.1) = e.2.2.1 + 1 := by omega
+  simp [mirror, bump, hpos]
 /-- Exactness for commuting pieces (Mathlib matrix exponential): if the generators `G` of one Trotter
 step commute pairwise, the product over all leaf steps of the whole simulation — every order, every
 step count, every value of the Suzuki ratios, any involutive or other qubit bookkeeping — of the step
